@@ -36,6 +36,7 @@ fn worlds() -> Vec<Box<dyn DynWorld>> {
         Box::new(Erased(checks::votes::VotesCheck)),
         Box::new(Erased(checks::handshake::Handshake)),
         Box::new(Erased(checks::merkle_voting::MerkleVote)),
+        Box::new(Erased(checks::sac_admin::SacAdmin)),
     ]
 }
 
@@ -46,7 +47,7 @@ pub const TABLE: &[(&str, &[(&str, f64)])] = &[
     ("C03", &[("smart_account", 1.0)]),
     ("C04", &[("rwa", 1.0), ("rwa_real", 1.0)]),
     ("C05", &[("vault", 1.0)]),
-    ("C06", &[("access", 1.0), ("handshake", 0.25), ("gates", 0.25), ("forwarder", 0.25)]),
+    ("C06", &[("access", 1.0), ("handshake", 0.25), ("gates", 0.25), ("forwarder", 0.25), ("sac_admin", 1.0)]),
     ("C07", &[("handshake", 1.0)]),
     ("C08", &[("timelock", 1.0), ("controller_ext", 1.0)]),
     ("C09", &[("controller", 1.0), ("controller_ext", 0.5)]),
